@@ -353,7 +353,7 @@ class ASPConverter(Converter[ASPProgram,
                 is_operation_on_angle = True
             operands.append(operand.convert(self))
         if is_operation_on_angle:
-            return ASPAngleOperation(operation.operation, *operands)
+            return ASPAngleOperation(operation.operation, *operands, negated=negated_between)
         if self._is_list_of_aggregates(operands) and not negated_between:
             return self._convert_operation_of_list_of_aggregate(operation, operands)
         aggregates = [operand for operand in operands if isinstance(operand, ASPAggregate)]
